@@ -203,6 +203,7 @@ impl Harness {
     pub fn finish(&mut self) {
         if let Some(writer) = self.writer.as_ref() {
             writer.borrow_mut().flush_raw();
+            writer.borrow_mut().flush_stats();
         }
     }
 
@@ -249,6 +250,7 @@ impl Harness {
 
                 if let Some(old) = self.writer.take() {
                     old.borrow_mut().flush_raw();
+                    old.borrow_mut().flush_stats();
                 }
 
                 let reader = Rc::new(RefCell::new(ReaderState::new(self.cfg.fill, self.cfg.rdp)));
